@@ -1,7 +1,7 @@
 """Registry entry for C04 (see tools/registry.py)."""
 
 SPEC = {'id': 'C04',
- 'modules': ['Snowflake.Props.C04', 'Snowflake.Tie.Broker'],
+ 'modules': ['Snowflake.Props.C04', 'Snowflake.Props.C04Reg', 'Snowflake.Tie.Broker'],
  'theorems': [('Snowflake.Props.C04', 'Snowflake.Broker.C04.poll_progress'),
               ('Snowflake.Props.C04', 'Snowflake.Broker.C04.client_progress'),
               ('Snowflake.Props.C04', 'Snowflake.Broker.C04.ans_progress'),
@@ -14,7 +14,11 @@ SPEC = {'id': 'C04',
               ('Snowflake.Props.C04', 'Snowflake.Broker.C04.pinned_poll_timeout_vs_match_deadlocks'),
               ('Snowflake.Props.C04', 'Snowflake.Broker.C04.pinned_answer_vs_client_timeout_deadlocks'),
               ('Snowflake.Props.C04', 'Snowflake.Broker.C04.pinned_early_answer_deadlocks'),
-              ('Snowflake.Props.C04', 'Snowflake.Broker.C04.fixed_same_schedules_complete')],
+              ('Snowflake.Props.C04', 'Snowflake.Broker.C04.fixed_same_schedules_complete'),
+              ('Snowflake.Props.C04Reg', 'Snowflake.BrokerReg.C04.gauge_counts_registrations'),
+              ('Snowflake.Props.C04Reg', 'Snowflake.BrokerReg.C04.gauge_nonneg'),
+              ('Snowflake.Props.C04Reg', 'Snowflake.BrokerReg.C04.map_names_registered'),
+              ('Snowflake.Props.C04Reg', 'Snowflake.BrokerReg.C04.quiescent_clean_any_sids')],
  'ties': [('Snowflake.Tie.Broker', 'Snowflake.Tie.Broker.skel_Broker_tie'),
           ('Snowflake.Tie.Broker', 'Snowflake.Tie.Broker.skel_RequestOffer_tie'),
           ('Snowflake.Tie.Broker', 'Snowflake.Tie.Broker.skel_AddSnowflake_tie'),
@@ -43,7 +47,12 @@ SPEC = {'id': 'C04',
                'driven to its response by at most 8 / 6 / 2 system steps (timer firings included), proved by a rank '
                'argument over an inductive invariant; at quiescence both heaps and the id map are empty, the gauge is '
                '0 and a fresh client is denied. The originally pinned skeleton has kernel-checked deadlock witnesses; '
-               'both defects were re-found on the real broker by forced schedules and repaired (fix: commits).',
+               'both defects were re-found on the real broker by forced schedules and repaired (fix: commits). The '
+               '"no leftover registrations" clause is proved a second time on a reduced registration model '
+               '(Model/BrokerReg.lean: numbered polls with ARBITRARY session ids; add / timeout / pop / cleanup) without '
+               'the distinct-ids assumption: the gauge always equals the number of polls holding a registration (never '
+               'negative), the id map only names such polls, and once every poll has completed the gauge is 0 and the id '
+               'map is empty - also when an id polls again while its earlier poll is still queued or matched.',
  'level_note': 'Trusted: Lean kernel; the hand-written LTS (atomic critical sections, rendezvous channels, abstract '
                'time: timers are nondeterministic; pools abstracted to sets with a clients-minimal pop - '
                'container/heap itself is verified separately in Base/Heap for C17 and tied by skeleton + observed on '
@@ -52,6 +61,6 @@ SPEC = {'id': 'C04',
                'harness only, never by a theorem.',
  'design_ref': 'DESIGN.md §5.4',
  'assumptions': ['timers eventually fire',
-                 'session ids of concurrent polls are pairwise distinct',
+                 'session ids of concurrent polls are pairwise distinct (progress / completion theorems of the full LTS only; the registration accounting theorems of Props/C04Reg hold for arbitrary ids)',
                  'no system step of another request disables an enabled step (commutation, argued not proved)'],
  'race': True}
